@@ -38,6 +38,7 @@ LINESTARTS_SPEC = {'make': lambda prog, tier: h_c13.LineStartsHarness(prog, tier
 def lib(prog, tier):
     return h_lib.LibHarness(prog, tier)
 LIB_SPEC = {'make': lib, 'time_limit': {'quick': 420, 'thorough': 2400}}
+LIB_META_SPEC = {'make': lambda prog, tier: h_lib.LibHarness(prog, tier, mode='meta', name='library_front_matter'), 'time_limit': {'quick': 120, 'thorough': 120}}
 
 def squash_graphs(prog, tier):
     return h_squash.SquashHarness(prog, tier, 'graphs')
@@ -57,7 +58,7 @@ PROPS = {
         'depth is a symbolic u8: 0..3 (quick) / 0..6 (thorough) on arbitrary reference graphs, all 256 values on chains and self-loops',
         'oracle: independent recursive expansion over the collected trees of the notes (sibling order not constrained: the statement does not fix it)',
         'termination = the call-depth bound of the executor is never hit; the CLI rebuild (build_key_from_iter over the squashed tree) must give the same tree']},
-    'C04': {'specs': [LIB_SPEC], 'notes': COMMON + [
+    'C04': {'specs': [LIB_SPEC, LIB_META_SPEC], 'notes': COMMON + [
         'the Markdown text parser is the stubbed environment: MarkdownReader::document returns the Document chosen for a content token, so '
         '"fresh import of the final texts" is well defined; everything else (import, update_key, delete_branch, index, paths, lookups) is real MIR',
         'observations compared after every step, node ids renamed to (note, pre-order ordinal): block / inline backlinks of every key incl. a missing one, '
@@ -70,7 +71,7 @@ PROPS = {
         'line_starts over strings given by their line structure (symbolic line lengths, LF / CRLF / missing final newline), std str::lines / '
         'split_inclusive / split / len modelled on that structure',
         'which byte ranges pulldown-cmark reports for a block (e.g. a last line without newline) and UTF-16 vs byte columns are outside the claim']},
-    'C01': {'specs': DOC_ALL, 'notes': COMMON + ['claimed at block level: every block/token of the input appears once, in order, in the same container, same kind']},
+    'C01': {'specs': DOC_ALL + [LIB_META_SPEC], 'notes': COMMON + ['claimed at block level: every block/token of the input appears once, in order, in the same container, same kind']},
     'C03': {'specs': DOC_ALL + [POSB_SPEC], 'notes': COMMON + ['claimed for blocks -> graph -> tree -> projection: every compiler-emitted panic edge / unwrap / expect / explicit panic reachable within the bounds is a violation']},
     'C07': {'specs': DOC_ALL, 'notes': COMMON + ['heading levels are symbolic u8 in 1..6; laws: order kept, emitted outline well nested, well-nested input keeps its levels, blocks stay under the nearest preceding heading']},
     'C20': {'specs': DOC_ALL + [LIB_SPEC], 'notes': COMMON + ['representation invariant checked on every arena produced within the bounds (establish step) and after every update_key step of the library harness (preserve step: RI, ids never reused, other notes untouched)']},
